@@ -18,6 +18,8 @@ Row(op, ra, rb) ==
     [op |-> op, a |-> ra, b |-> rb, res |-> ef.reg, cls |-> ClassOf(ra, rb),
      segk |-> ef.segk, splits |-> SetToSeq(ef.splits),
      sa |-> SetToSeq(ef.sa), ka |-> ef.ka, sb |-> SetToSeq(ef.sb), kb |-> ef.kb,
+     sub_ba |-> RSubset(rb, ra), sub_ab |-> RSubset(ra, rb), eq |-> (ra = rb),
+     jin_closed |-> BdryIn(rb, ra, TRUE), jin_open |-> BdryIn(rb, ra, FALSE),
      reaches |-> (ef.sa # {} \/ ef.sb # {} \/ (ra \notin {0, Full} /\ rb \notin {0, Full} /\ Reaches(ra, rb)))]
 
 PairRows == [kk \in 1..Len(OpSeq) |->
